@@ -40,7 +40,9 @@ func init() {
 				js = append(js, J("socket", "VX_C05_RawStream", a...))
 			}
 			js = append(js, J("socket", "VX_C05_RawSizeIndependent", 1, 2), J("socket", "VX_C05_RawSizeIndependent", 3, 0))
-			js = append(js, J("socket", "VX_C05_ReusedMessage", 1), J("socket", "VX_C20_Args", 2, -1, 3), J("proto/jsonproto", "VX_C05_JSONRetained", 1), J("socket", "VX_C05_RawRetained", 1), J("proto/thriftproto", "VX_C05_ThriftRetained", 1))
+			js = append(js, J("socket", "VX_C05_ReusedMessage", 1), J("socket", "VX_C20_Args", 2, -1, 3), J("proto/jsonproto", "VX_C05_JSONRetained", 1), J("socket", "VX_C05_RawRetained", 1), J("proto/thriftproto", "VX_C05_ThriftRetained", 1),
+				J("socket", "VX_C05_RawLongFields", 256, 10), J("socket", "VX_C05_RawLongFields", 10, 256), J("socket", "VX_C05_RawLongFields", 255, 255), J("socket", "VX_C05_RawLongFields", 300, 700), J("socket", "VX_C05_RawLongFields", 0, 65000),
+				J("proto/httproto", "VX_C05_HTTPGzipStream", 100))
 			// thrift binary protocol (apache thrift THeader transport/protocol interpreted)
 			for g := 0; g <= 3; g++ {
 				js = append(js, J("proto/thriftproto", "VX_C05_ThriftBinary", g, 2))
@@ -97,7 +99,7 @@ func init() {
 				js = append(js, J(".", "VX_C06_PoolAfterOversize", n+1))
 			}
 			js = append(js, J("proto/thriftproto", "VX_C06_ThriftOversize", 8192, 12000))
-			js = append(js, J(".", "VX_C06_SessionFieldBytes", 3, 1), J(".", "VX_C03_Frame", 9, 0, 0, 0, 0, 0, 1, 0))
+			js = append(js, J(".", "VX_C06_SessionFieldBytes", 3, 1), J(".", "VX_C06_SessionFieldBytes", 4, 1), J(".", "VX_C03_Frame", 9, 0, 0, 0, 0, 0, 1, 0))
 			js = append(js, J(".", "VX_C06_SessionFieldBytes", 0, 3), J(".", "VX_C06_SessionFieldBytes", 1, 2), J(".", "VX_C06_SessionFieldBytes", 2, 2))
 			if tier == "thorough" {
 				js = append(js, J(".", "VX_C06_SessionFieldBytes", 1, 3), J(".", "VX_C06_SessionFieldBytes", 2, 3))
@@ -114,12 +116,13 @@ func init() {
 	})
 	registerCheck(&checkSpec{
 		id:    "C12",
-		dirs:  []string{"socket", ".", "xfer/md5"},
+		dirs:  []string{"socket", ".", "xfer/md5", "xfer/gzip"},
 		level: "other",
 		jobs: func(tier string) []job {
 			js := []job{J("socket", "VX_C12_PipeInverts", 0, 2), J("socket", "VX_C12_PipeInverts", 1, 2), J("socket", "VX_C12_PipeInverts", 2, 2),
 				J("socket", "VX_C12_PipeOnWire", 1, 1), J("socket", "VX_C12_PipeOnWire", 2, 1), J("socket", "VX_C12_Unregistered"), J("socket", "VX_C12_TooLong"),
 				J("socket", "VX_C12_PipeLengthOnWire", 255, 1), J("socket", "VX_C12_PipeLengthOnWire", 254, 1), J("socket", "VX_C12_PipeLengthOnWire", 128, 2), J("socket", "VX_C12_PipeLengthOnWire", 127, 1),
+				J("xfer/gzip", "VX_C12_GzipPipe", 0, 300), J("xfer/gzip", "VX_C12_GzipPipe", 1, 300), J("xfer/gzip", "VX_C12_GzipPipe", 2, 64), J("xfer/gzip", "VX_C12_GzipPipe", 3, 300),
 				J("xfer/md5", "VX_C12_MD5Pipe", 1, 1), J("xfer/md5", "VX_C12_MD5Pipe", 2, 0), J("xfer/md5", "VX_C12_MD5Pipe", 2, 1),
 				// a reply (also an error reply) goes through the caller's pipe: [C12]-tagged assertion of the frame harness
 				J(".", "VX_C03_Frame", 1, 0, 0, 0, 0, 0, 1, 1), J(".", "VX_C03_Frame", 1, 1, 0, 0, 0, 0, 1, 1), J(".", "VX_C03_Frame", 1, 2, 0, 0, 0, 0, 0, 1), J(".", "VX_C03_Frame", 1, 0, 0, 1, 0, 0, 1, 1), J(".", "VX_C03_Frame", 1, 0, 0, 2, 0, 0, 1, 1), J(".", "VX_C03_Frame", 1, 0, 0, 0, 2, 0, 1, 1)}
@@ -146,7 +149,7 @@ func init() {
 				J("socket", "VX_C20_Args", 1, 1, 1), J("socket", "VX_C20_Args", 2, 1, 1), J("socket", "VX_C20_XferPipe", 2), J("socket", "VX_C20_ByteBuffer", 2, 1),
 				J(".", "VX_C20_ContextReuse", 0, 1), J(".", "VX_C20_ContextReuse", 1, 1), J(".", "VX_C20_ContextReuse", 2, 0),
 				J(".", "VX_C20_PreSessionPools", 0, 0), J(".", "VX_C20_PreSessionPools", 0, 1), J(".", "VX_C20_PreSessionPools", 1, 0), J(".", "VX_C20_PreSessionPools", 1, 1), J(".", "VX_C20_PreSessionPools", 2, 0), J(".", "VX_C20_PreSessionPools", 2, 1),
-				J("socket", "VX_C20_Socket", 2, 1), J("socket", "VX_C20_Socket", 1, 0),
+				J("socket", "VX_C20_Socket", 2, 1), J("socket", "VX_C20_Socket", 1, 0), J("socket", "VX_C20_Socket", 2, 1, 1), J("socket", "VX_C20_Socket", 1, 0, 1),
 				J(".", "VX_C20_ContextStatus", 0, 2), J(".", "VX_C20_ContextStatus", 1, 2), J(".", "VX_C20_ContextStatus", 2, 2), J(".", "VX_C20_ContextStatus", 3, 2),
 			}
 			js = append(js, msgSeqJobs(tier)...)
@@ -191,6 +194,7 @@ func init() {
 				js = append(js, J(".", "VX_C03_HookPanic", st))
 			}
 			js = append(js, historyJobs(tier, false)...)
+			js = append(js, J(".", "VX_C03_CancelledQueuedWrite", 0))
 			// vetoes of the reply-side hooks; panics whose value is a *Status
 			js = append(js, J(".", "VX_C03_Frame", 1, 0, 0, 0, 4, 0, 1, 0), J(".", "VX_C03_Frame", 1, 0, 0, 0, 5, 0, 1, 0), J(".", "VX_C03_Frame", 1, 0, 0, 5, 0, 0, 1, 0), J(".", "VX_C03_Frame", 1, 0, 0, 6, 0, 0, 1, 0))
 			if tier == "thorough" {
@@ -229,7 +233,8 @@ func init() {
 		js = append(js, J(".", "VX_C02_FastReply", 0, 1), J(".", "VX_C02_FastReply", 1, 0))
 		js = append(js, historyJobs(tier, true)...)
 		js = append(js, J(".", "VX_C02_ReplyThenLoss", 0, 1, 0), J(".", "VX_C02_ReplyThenLoss", 0, 4, 0), J(".", "VX_C02_ReplyThenLoss", 1, 1, 0), J(".", "VX_C02_ReplyThenLoss", 0, 1, 1),
-			J(".", "VX_C14_DisconnectWhileLaunching", 0, 0), J(".", "VX_C14_DisconnectWhileLaunching", 1, 1), J(".", "VX_C14_DisconnectWhileLaunching", 0, 1))
+			J(".", "VX_C14_DisconnectWhileLaunching", 0, 0), J(".", "VX_C14_DisconnectWhileLaunching", 1, 1), J(".", "VX_C14_DisconnectWhileLaunching", 0, 1),
+			J("proto/httproto", "VX_C02_HTTPErrorReply", 0), J(".", "VX_C06_SessionFieldBytes", 4, 1))
 		for _, cut := range []int{1, 3, 4, 5, 9, 14, 18} {
 			add(1, 1, 0, 2, 0, cut, 0)
 		}
@@ -244,7 +249,7 @@ func init() {
 		return js
 	}
 	registerCheck(&checkSpec{
-		id: "C02", dirs: []string{"."}, level: "other", jobs: c02jobs,
+		id: "C02", dirs: []string{".", "proto/httproto"}, level: "other", jobs: c02jobs,
 		assumptions: append(append([]string{}, stdAssumptions...), "scripted in-memory net.Conn (stub S-CONN); the remote peer's reply is an arbitrary well-framed raw-protocol frame (symbolic seq/status/codec/body) or a truncation of one; library body codecs (json/xml/form/protobuf/thrift) excluded"),
 		explanation: "the real AsyncCall, read loop, bindReply/handleReply, readDisconnected and callCmd.done/cancel are executed symbolically with two pending calls, one hostile reply frame and connection loss; completion is observed through Done() and the completion channel; a goroutine left blocked is a violation",
 		bounds:      "2 pending calls, 1 reply frame (whole or cut at listed byte offsets), then EOF; reply body <= 2 bytes; sequential schedule (spawned handler runs when the reader blocks)",
@@ -255,7 +260,8 @@ func init() {
 		jobs: func(tier string) []job {
 			js := []job{J(".", "VX_C08_GracefulClose", 0, 1), J(".", "VX_C08_GracefulClose", 1, 1), J(".", "VX_C08_GracefulClose", 2, 1), J(".", "VX_C02_CloseThenLoss", 1), J(".", "VX_C02_CloseThenLoss", 0),
 				J(".", "VX_C08_CloseTwoPending", 0), J(".", "VX_C08_CloseTwoPending", 1),
-				J(".", "VX_C08_CloseHandlerNeedsTraffic", 0), J(".", "VX_C08_CloseHandlerNeedsTraffic", 1), J(".", "VX_C07_CloseWaitsThenLoss", 0)}
+				J(".", "VX_C08_CloseHandlerNeedsTraffic", 0), J(".", "VX_C08_CloseHandlerNeedsTraffic", 1), J(".", "VX_C07_CloseWaitsThenLoss", 0),
+				J(".", "VX_C08_OverlappingClose", 0), J(".", "VX_C08_OverlappingClose", 1), J(".", "VX_C08_OverlappingClose", 2)}
 			js = append(js, historyJobs(tier, true)...)
 			if tier == "thorough" {
 				js = append(js, J(".", "VX_C08_GracefulClose", 0, 3), J(".", "VX_C08_GracefulClose", 1, 3), J(".", "VX_C08_GracefulClose", 2, 0))
@@ -277,6 +283,7 @@ func init() {
 				J(".", "VX_C01_ConcurrentCalls", 1, 1),
 				J(".", "VX_C01_MetaAcrossRequests", 0, 1), J(".", "VX_C01_MetaAcrossRequests", 1, 1), J(".", "VX_C01_MetaAcrossRequests", 0, 1, 1), J(".", "VX_C01_MetaAcrossRequests", 1, 2, 1), J(".", "VX_C10_RealRoutes", 1),
 				J(".", "VX_C01_CtrlOverlap", 1, 1), J(".", "VX_C01_CtrlOverlap", 0, 1),
+				J(".", "VX_C01_TwoSessionsSameSeq", 0, 1), J(".", "VX_C01_TwoSessionsSameSeq", 1, 1),
 			}
 			js = append(js, msgSeqJobs(tier)...)
 			if tier == "thorough" {
@@ -289,7 +296,7 @@ func init() {
 		bounds:      "2 pending calls, 2 frames, body <= 3 bytes; concurrency of writers and sequence allocation not yet covered (sequential schedules)",
 	})
 	registerCheck(&checkSpec{
-		id: "C04", dirs: []string{"socket", ".", "proto/jsonproto", "proto/thriftproto", "mixer/websocket/pbSubProto", "mixer/websocket/jsonSubProto"}, level: "other",
+		id: "C04", dirs: []string{"socket", ".", "proto/jsonproto", "proto/thriftproto", "proto/httproto", "mixer/websocket/pbSubProto", "mixer/websocket/jsonSubProto"}, level: "other",
 		jobs: func(tier string) []job {
 			js := []job{J("socket", "VX_C04_ResetLeavesSharedStatus", 1)}
 			js = append(js, c02jobs("quick")[:8]...)
@@ -302,7 +309,8 @@ func init() {
 			// wire link over the other protocols
 			js = append(js, J("proto/jsonproto", "VX_C05_JSONRoundTrip", 3, 1, 1), J("proto/jsonproto", "VX_C05_JSONRoundTrip", 3, 0, 1),
 				J("mixer/websocket/pbSubProto", "VX_C04_WSPbStatus"), J("mixer/websocket/jsonSubProto", "VX_C04_WSJsonStatus"),
-				J("proto/thriftproto", "VX_C05_ThriftBinary", 3, 2), J("proto/thriftproto", "VX_C04_ThriftBinarySeq", 1), J("proto/thriftproto", "VX_C05_ThriftStruct", 3, 1))
+				J("proto/thriftproto", "VX_C05_ThriftBinary", 3, 2), J("proto/thriftproto", "VX_C04_ThriftBinarySeq", 1), J("proto/thriftproto", "VX_C05_ThriftStruct", 3, 1),
+				J("socket", "VX_C05_RawLongFields", 256, 10), J("socket", "VX_C05_RawLongFields", 10, 256), J("socket", "VX_C05_RawLongFields", 300, 700), J("proto/httproto", "VX_C05_HTTPGzipStream", 100))
 			if tier == "thorough" {
 				js = append(js, c02jobs("thorough")...)
 			}
@@ -341,6 +349,7 @@ func init() {
 			js = append(js, J(".", "VX_C03_Frame", 1, 1, 0, 0, 0, 2, 1, 0), J(".", "VX_C03_Frame", 1, 2, 0, 0, 0, 2, 1, 0), J(".", "VX_C03_Frame", 1, 0, 0, 2, 0, 2, 1, 0), J(".", "VX_C03_Frame", 1, 0, 0, 1, 0, 2, 1, 0), J(".", "VX_C03_Frame", 1, 0, 0, 0, 2, 2, 1, 0), J(".", "VX_C03_Frame", 1, 1, 0, 0, 0, 1, 1, 0))
 			js = append(js, c19jobs("quick")...)
 			js = append(js, msgSeqJobs(tier)...)
+			js = append(js, J(".", "VX_C15_WriteFailedCauses", 0), J(".", "VX_C15_WriteFailedCauses", 1))
 			if tier == "thorough" {
 				js = append(js, c02jobs("thorough")...)
 			}
@@ -358,6 +367,7 @@ func init() {
 				J(".", "VX_C07_CloseRace", 1), J(".", "VX_C07_CloseRace", 2), J(".", "VX_C07_ModifySocket", 0), J(".", "VX_C07_ModifySocket", 1),
 				J(".", "VX_C07_DialHooks", 0), J(".", "VX_C07_DialHooks", 1), J(".", "VX_C07_DialHooks", 2), J(".", "VX_C07_CloseWaitsThenLoss", 0)}
 			js = append(js, historyJobs(tier, false)...)
+			js = append(js, J(".", "VX_C07_NoHandlerAfterClose", 0), J(".", "VX_C07_NoHandlerAfterClose", 1))
 			if tier == "thorough" {
 				js = append(js, J(".", "VX_C07_History", 5))
 			}
@@ -383,7 +393,8 @@ func init() {
 			add(2, 0, 1, 1, 1, 0, 0, 1)
 			add(1, 1, 0, 0, 1, 1, 1, 1)
 			js = append(js, J(".", "VX_C09_ClientHooks", 0, 0), J(".", "VX_C09_ClientHooks", 0, 1), J(".", "VX_C09_ClientHooks", 1, 0), J(".", "VX_C09_ClientHooks", 1, 1))
-			js = append(js, J(".", "VX_C09_RedialRetry", 0), J(".", "VX_C09_RedialRetry", 1), J(".", "VX_C09_ReplyDuringPostWrite"))
+			js = append(js, J(".", "VX_C09_RedialRetry", 0), J(".", "VX_C09_RedialRetry", 1), J(".", "VX_C09_ReplyDuringPostWrite"),
+				J(".", "VX_C03_Frame", 1, 0, 0, 3, 0, 0, 1, 0), J(".", "VX_C03_Frame", 1, 0, 0, 2, 0, 0, 1, 0), J(".", "VX_C03_Frame", 1, 0, 0, 0, 0, 2, 1, 0), J(".", "VX_C03_Frame", 1, 0, 0, 0, 0, 0, 1, 1))
 			// veto statuses through the general frame harness (incl. code 405)
 			for vs := 1; vs <= 3; vs++ {
 				js = append(js, J(".", "VX_C03_Frame", 1, 0, 0, 0, vs, 0, 1, 0))
@@ -468,7 +479,8 @@ func init() {
 			js := []job{J("plugin/overloader", "VX_C18_ConnHistory", 1, 3, 0), J("plugin/overloader", "VX_C18_ConnHistory", 1, 3, 1), J("plugin/overloader", "VX_C18_ConnHistory", 2, 4, 0),
 				J("plugin/overloader", "VX_C18_ConnRace", 1), J("plugin/overloader", "VX_C18_ConnRace", 2),
 				J("plugin/overloader", "VX_C18_QPS", 2, 3), J("plugin/overloader", "VX_C18_QPS", 1, 1), J("plugin/overloader", "VX_C18_QPSSession", 1, 3, 0), J("plugin/overloader", "VX_C18_QPSSession", 2, 3, 1), J("plugin/overloader", "VX_C18_QPSRace", 1, 1, 1, 2), J("plugin/overloader", "VX_C18_QPSRace", 2, 2, 3, 2),
-				J("plugin/overloader", "VX_C18_QPSInvariant", 4), J("plugin/overloader", "VX_C18_SlotAfterCloseAndLoss", 1), J("plugin/overloader", "VX_C18_SlotAfterCloseAndLoss", 2)}
+				J("plugin/overloader", "VX_C18_QPSInvariant", 4), J("plugin/overloader", "VX_C18_SlotAfterCloseAndLoss", 1), J("plugin/overloader", "VX_C18_SlotAfterCloseAndLoss", 2),
+				J("plugin/overloader", "VX_C18_QPSSession", 1, 3, 0, 1), J("plugin/overloader", "VX_C18_QPSSession", 2, 3, 1, 1)}
 			if tier == "thorough" {
 				js = append(js, J("plugin/overloader", "VX_C18_QPSInvariant", 7), J("plugin/overloader", "VX_C18_ConnHistory", 2, 5, 1), J("plugin/overloader", "VX_C18_ConnHistory", 1, 5, 1), J("plugin/overloader", "VX_C18_QPSRace", 3, 3, 4, 2))
 			}
@@ -482,7 +494,8 @@ func init() {
 		id: "C13", dirs: []string{"."}, level: "other",
 		jobs: func(tier string) []job {
 			js := []job{J(".", "VX_C13_Redial", 1, 0, 1), J(".", "VX_C13_Redial", 1, 1, 0), J(".", "VX_C13_Redial", 2, 0, 0), J(".", "VX_C13_Redial", 2, 1, 1), J(".", "VX_C13_Redial", 1, 2, 1), J(".", "VX_C13_Redial", 9, 0, 0),
-				J(".", "VX_C13_LossWhileLaunching", 1, 1), J(".", "VX_C13_LossWhileLaunching", 1, 0), J(".", "VX_C13_LossWhileLaunching", 2, 1)}
+				J(".", "VX_C13_LossWhileLaunching", 1, 1), J(".", "VX_C13_LossWhileLaunching", 1, 0), J(".", "VX_C13_LossWhileLaunching", 2, 1),
+				J(".", "VX_C13_TwoOutages", 2, 2), J(".", "VX_C13_TwoOutages", 1, 3), J(".", "VX_C13_TwoOutages", 3, 2)}
 			if tier == "thorough" {
 				js = append(js, J(".", "VX_C13_Redial", 9, 0, 1), J(".", "VX_C13_Redial", 2, 0, 1), J(".", "VX_C13_Redial", 1, 0, 0))
 			}
@@ -505,6 +518,7 @@ func init() {
 				J("plugin/secure", "VX_C17_Push", 1, 1, 1), J("plugin/secure", "VX_C17_Push", 0, 1, 1), J("plugin/secure", "VX_C17_Push", 1, 0, 1),
 				J("plugin/secure", "VX_C17_PushRedial", 0, 1), J("plugin/secure", "VX_C17_PushRedial", 1, 1),
 				J("plugin/secure", "VX_C17_Call", 1, 0, 0, 1, 1), J("plugin/secure", "VX_C17_Call", 0, 1, 0, 1, 1), J("plugin/secure", "VX_C17_Call", 0, 1, 0, 1, 0), J("plugin/secure", "VX_C17_Call", 1, 1, 1, 1, 1),
+				J("plugin/secure", "VX_C17_Call", 1, 0, 1, 1, 0, 1), J("plugin/secure", "VX_C17_Call", 0, 1, 1, 1, 0, 1), J("plugin/secure", "VX_C17_Call", 1, 1, 1, 1, 1, 1),
 				J("plugin/secure", "VX_C17_Push", 1, 0, 1, 1), J("plugin/secure", "VX_C17_Push", 1, 1, 1, 1),
 				J("plugin/secure", "VX_C17_Sequence", 1, 1, 1), J("plugin/secure", "VX_C17_Sequence", 0, 1, 1), J("plugin/secure", "VX_C17_Sequence", 1, 0, 1), J("plugin/secure", "VX_C17_Sequence", 0, 0, 1))
 			if tier == "thorough" {
@@ -536,6 +550,7 @@ func init() {
 				J("codec", "VX_C11_FormRoundTrip", 0, 1, 0), J("codec", "VX_C11_FormRoundTrip", 1, 1, 2), J("codec", "VX_C11_FormRoundTrip", 1, 0, 3), J("codec", "VX_C11_FormRoundTrip", 2, 1, 0), J("codec", "VX_C11_FormRoundTrip", 3, 1, 1),
 				J("codec", "VX_C11_FormGarbage", 1, 1), J("codec", "VX_C11_FormGarbage", 1, 2), J("codec", "VX_C11_FormGarbage", 1, 3), J("codec", "VX_C11_FormGarbage", 0, 2), J("codec", "VX_C11_FormGarbage", 0, 3),
 				J("codec", "VX_C11_ThriftRoundTrip", 2), J("codec", "VX_C11_ThriftGarbage", 4), J("codec", "VX_C11_ThriftGarbage", 6),
+				J("codec", "VX_C11_PlainWindow", 4, 6, 0), J("codec", "VX_C11_PlainWindow", 4, 3, 0), J("codec", "VX_C11_PlainWindow", 0, 2, 0), J("codec", "VX_C11_PlainWindow", 4, 6, 1),
 				J("codec", "VX_C11_EncodingsIndependent", 0, 1), J("codec", "VX_C11_EncodingsIndependent", 1, 1), J("codec", "VX_C11_EncodingsIndependent", 2, 1))
 			if tier == "thorough" {
 				js = append(js, J("codec", "VX_C11_PlainGarbage", 5, 4), J("codec", "VX_C11_PlainGarbage", 0, 4), J("codec", "VX_C11_FormGarbage", 0, 4), J("codec", "VX_C11_FormRoundTrip", 0, 2, 0))
@@ -555,7 +570,7 @@ func init() {
 			}
 			js = append(js, J(".", "VX_C14_Races", 0, 1), J(".", "VX_C14_Races", 4, 1))
 			js = append(js, J(".", "VX_C14_DisconnectWhileLaunching", 0), J(".", "VX_C14_DisconnectWhileLaunching", 1), J(".", "VX_C14_DisconnectWhileLaunching", 0, 1))
-			js = append(js, J(".", "VX_C14_Races", 7, 0), J(".", "VX_C14_Races", 8, 0), J(".", "VX_C14_Races", 7, 1), J(".", "VX_C14_Races", 8, 1))
+			js = append(js, J(".", "VX_C14_Races", 7, 0), J(".", "VX_C14_Races", 8, 0), J(".", "VX_C14_Races", 7, 1), J(".", "VX_C14_Races", 8, 1), J(".", "VX_C14_Races", 9, 0))
 			if tier == "thorough" {
 				for sc := 1; sc <= 6; sc++ {
 					js = append(js, J(".", "VX_C14_Races", sc, 1))
